@@ -76,6 +76,12 @@ class ExhaustiveSubsets(Fam):
             places = {'bottom': list(range(U)), 'top': [lo - U + 1 + i for i in range(U)]}
             if dmax(dta) != dmax(dtb):
                 places['straddle'] = [lo - (U // 2 - 1) + i for i in range(U)]
+            wa, wb = np.dtype(dta).itemsize, np.dtype(dtb).itemsize
+            if wa != wb:
+                # values congruent modulo 2^(narrow width): a silent narrowing cast would make them collide
+                mod = 1 << (8 * min(wa, wb))
+                small = [0, lo] if U == 4 else [0, 1, lo]
+                places['wrap'] = small + [mod + v for v in small]
             hi_ok_a, hi_ok_b = dmax(dta), dmax(dtb)
             for pname, vals in places.items():
                 for sa in subsets:
